@@ -653,6 +653,41 @@ def _valid_by_set(m, F, R, f, cons):
     return True
 
 
+def _ord_membership(m, F, R, f, inner, inner_test, s, cons):
+    """`ord(s[i]) not in CODES` with CODES a module-level constant that folds to a range / collection of integers: decided by enumeration.
+    Returns False (nothing reported) when the test does not have that form or the constant does not fold."""
+    memb = [x for x in ast.walk(inner_test) if isinstance(x, ast.Compare) and len(x.ops) == 1 and isinstance(x.ops[0], (ast.In, ast.NotIn)) and
+            re.match(r'^ord\(%s\[\w+\]\)$' % re.escape(s), norm(x.left)) and isinstance(x.comparators[0], ast.Name)]
+    if len(memb) != 1:
+        return False
+    coll = memb[0].comparators[0]
+    val = None
+    try:
+        for modn in ('ansi_parsing', 'ansi_format'):
+            if m.const(modn, coll.id) is not None:
+                val = F.fold(m.const(modn, coll.id))
+                break
+    except Exception:
+        return False
+    if not isinstance(val, (range, frozenset, set, list, tuple)) or not all(isinstance(c_, int) and not isinstance(c_, bool) for c_ in val):
+        return False
+    cont_on_notin = isinstance(memb[0].ops[0], ast.NotIn)
+    par_ = getattr(memb[0], '_parent', None)
+    if isinstance(par_, ast.UnaryOp) and isinstance(par_.op, ast.Not):
+        cont_on_notin = not cont_on_notin
+    # the membership atom must be a conjunct of the loop test (continue while in range and not a final byte)
+    top = inner_test.values if isinstance(inner_test, ast.BoolOp) and isinstance(inner_test.op, ast.And) else [inner_test]
+    atom = par_ if isinstance(par_, ast.UnaryOp) else memb[0]
+    if not cont_on_notin or not any(atom is t_ for t_ in top):
+        return False
+    pts = set(val)
+    wantset = set(range(0x40, 0x7F))
+    R.check(pts == wantset, f, inner, 'the parameter scan continues exactly on code points outside 0x40 .. 0x7E',
+            'the parameter scan stops on %s; a final byte is 0x40..0x7E inclusive%s' % (
+                _fmt_class(pts), ': 0x7E ("~") is missing -- range() excludes its upper bound' if wantset - pts == {0x7E} else ''), construct=cons)
+    return True
+
+
 @rule('F1', 'term-range: the byte classes of AnsiSetting.valid and of the tokenizer are exactly [0x40, 0x7E]', floor=2)
 def F1(m, R):
     F = get_folder(m)
@@ -758,6 +793,8 @@ def F1(m, R):
                 R.undecided(f, inner, 'scan test %s' % short(inner.test), construct=cons)
         elif len(ords) != 1:
             R.undecided(f, inner, 'scan test %s' % short(inner.test), construct=cons)
+        elif _ord_membership(m, F, R, f, inner, inner_test, s, cons):
+            pass
         else:
             x = next(iter(ords))
             cur = re.match(r'^ord\(%s\[(\w+)\]\)$' % s, x)
